@@ -497,6 +497,9 @@ func (c *Cache) copyFile(file io.ReadSeeker, out OutputID, size int64) error {
 			var out2 OutputID
 			h.Sum(out2[:0])
 			if out == out2 {
+				// The output is being stored again: that counts as a use,
+				// so that Trim does not remove it as unused.
+				c.used(name)
 				return nil
 			}
 		}
